@@ -93,6 +93,10 @@ extern "C" void vf_main(void) {
   const uint32_t x = vf_norm<T>(vf_in_u32());
   uint32_t ys[3]; for (unsigned i = 0; i < 3; ++i) ys[i] = vf_norm<T>(vf_in_u32());
   const uint32_t fat1 = vf_in_u32(), fat2 = vf_in_u32();
+#ifdef VF_BIGCNT
+  // a count / requested size anywhere in the range of size_type (64-bit composed of two inputs); the harness only keeps those beyond max_size()
+  const uint64_t bigcnt = (uint64_t)(VF_SIZET)(((uint64_t)vf_in_u32() << 32) | vf_in_u32());
+#endif
 
 #ifdef VF_MAXSZ
   vf_max_size_value = VF_MAXSZ;   // the allocator's max_size(): a small harness-chosen value so that 'one past max_size' is reachable
@@ -108,12 +112,12 @@ extern "C" void vf_main(void) {
     for (unsigned i = 0; i < VF_MAXM; ++i) m[i] = i < size ? vals[i] : 0;
 
     // ---- per-op preconditions, expected result
-    uint32_t nsz = size;       // model size after a successful op
+    uint64_t nsz = size;       // model size after a successful op
     uint32_t fm = size;        // first modified index (prefix [0,fm) must stay untouched)
     int growing = 0;           // op may need to grow
     int strong = 0;            // op promises the strong guarantee (for this argument)
     int strong_capdata = 0;    // ... including capacity() and data()
-    uint32_t required = 0;     // capacity a reallocation must at least provide
+    uint64_t required = 0;     // capacity a reallocation must at least provide
     uint32_t argval = x;
 #if VF_ALIAS
     vf_assume(ai < size);
@@ -128,23 +132,38 @@ extern "C" void vf_main(void) {
 #elif VF_OP == OP_insert_c || VF_OP == OP_insert_m || VF_OP == OP_emplace
     vf_assume(a <= size); nsz = size + 1; fm = a; growing = 1; strong = (a == size); strong_capdata = 1;
 #elif VF_OP == OP_insert_n
-    vf_assume(a <= size); vf_assume(b <= VF_MAXCNT); nsz = size + b; fm = a; growing = 1;
+#ifdef VF_BIGCNT
+    vf_assume(a <= size); nsz = (uint64_t)size + bigcnt; fm = a; growing = 1;
+#else
+    vf_assume(a <= size); vf_assume(b <= VF_MAXCNT); nsz = size + b; fm = a; growing = 1; strong = (a == size && b == 1); strong_capdata = 1;
+#endif
 #elif VF_OP == OP_insert_range || VF_OP == OP_insert_il
-    vf_assume(a <= size); vf_assume(b <= 3); nsz = size + b; fm = a; growing = 1;
+    vf_assume(a <= size); vf_assume(b <= 3); nsz = size + b; fm = a; growing = 1; strong = (a == size && b == 1); strong_capdata = 1;
 #elif VF_OP == OP_erase1
     vf_assume(a < size); nsz = size - 1; fm = a;
 #elif VF_OP == OP_erase_range
     vf_assume(a <= b); vf_assume(b <= size); nsz = size - (b - a); fm = a;
 #elif VF_OP == OP_resize || VF_OP == OP_resize_v
+#ifdef VF_BIGCNT
+    nsz = bigcnt; fm = size; growing = 1; strong = 1; strong_capdata = 1;
+#else
     vf_assume(a <= VF_CAP + VF_MAXCNT); nsz = a; fm = a < size ? a : size; growing = 1; strong = 1; strong_capdata = 1;
+#endif
 #elif VF_OP == OP_assign_n
+#ifdef VF_BIGCNT
+    nsz = bigcnt; fm = 0; growing = 1;
+#else
     vf_assume(a <= VF_CAP + VF_MAXCNT); nsz = a; fm = 0; growing = 1;
+#endif
 #elif VF_OP == OP_assign_range || VF_OP == OP_assign_il || VF_OP == OP_assign_op_il
     vf_assume(b <= 3); nsz = b; fm = 0; growing = 1;
 #elif VF_OP == OP_clear
     nsz = 0; fm = 0;
 #elif VF_OP == OP_reserve
-    vf_assume(a <= VF_CAP + VF_MAXCNT + 2); nsz = size; growing = 1; strong = 1; strong_capdata = 1;
+#ifndef VF_BIGCNT
+    vf_assume(a <= VF_CAP + VF_MAXCNT + 2);
+#endif
+    nsz = size; growing = 1; strong = 1; strong_capdata = 1;
 #elif VF_OP == OP_shrink
     nsz = size; strong = 1; strong_capdata = 1;
 #elif VF_OP == OP_append_range || VF_OP == OP_append_il
@@ -157,6 +176,17 @@ extern "C" void vf_main(void) {
     required = nsz;
 #if VF_OP == OP_reserve
     required = a;
+#ifdef VF_BIGCNT
+    required = bigcnt;
+#endif
+#endif
+#ifdef VF_BIGCNT
+    vf_assume(required > (uint64_t)V(A(7)).max_size());   // only requests beyond max_size(): each must throw std::length_error before touching anything
+#define CNT_A ((typename V::size_type)bigcnt)
+#define CNT_B ((typename V::size_type)bigcnt)
+#else
+#define CNT_A ((typename V::size_type)a)
+#define CNT_B ((typename V::size_type)b)
 #endif
 
     // ---- harness-owned argument objects
@@ -176,7 +206,7 @@ extern "C" void vf_main(void) {
 
     // growth capacity the run-time rule gives for this pre-state and request (the kernel has no constant-evaluation branch)
     std::size_t kexp = cap0;
-    if (required > cap0 && required <= v.max_size()) kexp = (std::size_t)((typename V::base&)v).unchecked_calculate_new_capacity((typename V::size_ty)required);
+    if (required > cap0 && required <= (uint64_t)v.max_size()) kexp = (std::size_t)((typename V::base&)v).unchecked_calculate_new_capacity((typename V::size_ty)required);
 
     // ---- the operation
     int threw = 0;
@@ -208,7 +238,7 @@ extern "C" void vf_main(void) {
 #elif VF_OP == OP_emplace
       { auto it = v.emplace(v.cbegin() + a, argref); ret = (std::size_t)(it - v.begin()); have_ret = 1; }
 #elif VF_OP == OP_insert_n
-      { auto it = v.insert(v.cbegin() + a, (typename V::size_type)b, argref); ret = (std::size_t)(it - v.begin()); have_ret = 1; }
+      { auto it = v.insert(v.cbegin() + a, CNT_B, argref); ret = (std::size_t)(it - v.begin()); have_ret = 1; }
 #elif VF_OP == OP_insert_range
       { auto it = v.insert(v.cbegin() + a, (const T *)src, (const T *)src + b); ret = (std::size_t)(it - v.begin()); have_ret = 1; }
 #elif VF_OP == OP_insert_il
@@ -223,11 +253,11 @@ extern "C" void vf_main(void) {
 #elif VF_OP == OP_erase_range
       { auto it = v.erase(v.cbegin() + a, v.cbegin() + b); ret = (std::size_t)(it - v.begin()); have_ret = 1; }
 #elif VF_OP == OP_resize
-      v.resize((typename V::size_type)a);
+      v.resize(CNT_A);
 #elif VF_OP == OP_resize_v
-      v.resize((typename V::size_type)a, argref);
+      v.resize(CNT_A, argref);
 #elif VF_OP == OP_assign_n
-      v.assign((typename V::size_type)a, argref);
+      v.assign(CNT_A, argref);
 #elif VF_OP == OP_assign_range
       v.assign((const T *)src, (const T *)src + b);
 #elif VF_OP == OP_assign_il
@@ -243,7 +273,7 @@ extern "C" void vf_main(void) {
 #elif VF_OP == OP_clear
       v.clear();
 #elif VF_OP == OP_reserve
-      v.reserve((typename V::size_type)a);
+      v.reserve(CNT_A);
 #elif VF_OP == OP_shrink
       v.shrink_to_fit();
 #elif VF_OP == OP_append_range
@@ -351,7 +381,7 @@ extern "C" void vf_main(void) {
           if (!VF_CE) vf_assert(vf_ndealloc() == ndealloc0 + (cap0 > VF_N ? 1u : 0u), "C04: the old block is released exactly once on reallocation");
         }
       }
-#if VF_OP == OP_reserve
+#if VF_OP == OP_reserve && !defined(VF_BIGCNT)
       vf_assert(cap1 >= a, "C10: reserve(n) makes capacity() >= n");
 #endif
 #if VF_OP == OP_pop_back || VF_OP == OP_erase1 || VF_OP == OP_erase_range || VF_OP == OP_clear
